@@ -63,6 +63,18 @@ def main():
                 msg = P.ProtocolHandler.decode_message(c['pv'], {}, 0, 0, 8, bytes.fromhex(c['body']), None, None)
                 r = {'names': list(msg.column_names), 'types': [t.cass_parameterized_type() for t in msg.column_types],
                      'rows': [[canon(x) for x in row] for row in msg.parsed_rows], 'paging_state': canon(msg.paging_state)}
+            elif k == 'ce_rows':
+                # RESULT rows with an encrypted column: the policy is a class attribute of the protocol handler
+                from cassandra.policies import ColDesc
+                from cassandra.column_encryption.policies import AES256ColumnEncryptionPolicy
+                pol = AES256ColumnEncryptionPolicy()
+                for col in c['enc_cols']:
+                    pol.add_column(ColDesc('ks', 'tbl', col), bytes.fromhex(c['key']), c['enc_type'])
+
+                class H(P.ProtocolHandler):
+                    column_encryption_policy = pol
+                msg = H.decode_message(c['pv'], {}, 0, 0, 8, bytes.fromhex(c['body']), None, None)
+                r = {'rows': [[canon(x) for x in row] for row in msg.parsed_rows]}
             elif k == 'ts':
                 from cassandra import util
                 r = canon(util.datetime_from_timestamp(c['seconds']))
